@@ -248,9 +248,9 @@ def report_mt(ck, mt):
 EXHAUSTIVE_TEMPLATES = [
     "(case e1 (gate cmd.begin db.bound vm.commit.begin vm.committed)"
     " (setup create:t1) (actors (create:t3) (create:t3)) (sched ) (rng 0) (sticky 0) (script ))",
-    "(case e2 (gate cmd.begin db.bound txn.pinned vm.commit.begin vm.committed)"
+    "(case e2 (gate cmd.begin db.bound txn.lock.begin txn.pinned vm.commit.begin vm.committed)"
     " (setup create:t1 ins:t1:1) (actors (ins:t1:5 cnt:t1) (ins:t1:6)) (sched ) (rng 0) (sticky 0) (script ))",
-    "(case e3 (gate cmd.begin db.bound txn.pinned vm.commit.begin vm.committed ddl.drop.applied)"
+    "(case e3 (gate cmd.begin db.bound txn.lock.begin txn.pinned vm.commit.begin vm.committed ddl.drop.applied)"
     " (setup create:t1 ins:t1:1) (actors (ins:t1:5) (drop:t1)) (sched ) (rng 0) (sticky 0) (script ))",
 ]
 
